@@ -89,6 +89,7 @@ def run_family(pid: str, family: str, technique: str, function: str, bounds: Dic
     stats = {"programs": 0, "compared": 0, "both_error": 0, "engine_rejected_semantic": 0, "reference_unsupported": 0}
     distinct = set()
     samples: List[Any] = []
+    special: Dict[str, Any] = {}
     for label, stmts, tables, scalars in PG.FAMILIES[family](rng, thorough):
         cls = re.sub(r":.*$", "", label)
         if family == "clauses" and ":" in label:
@@ -124,6 +125,13 @@ def run_family(pid: str, family: str, technique: str, function: str, bounds: Dic
             elif is_vtl and str(code).startswith(("1-", "0-")):
                 stats["engine_rejected_semantic"] += 1      # the engine does not consider the program valid: no claim
                 c["n"] -= 1
+            elif "Needed scale" in str(exc) and "multiplication" in str(exc):
+                # a failure of its own kind, kept apart from the class verdict (one stable key for all operator classes):
+                # DuckDB adds the scales of DECIMAL factors, a product of four Number columns needs scale 40 > 38
+                special.setdefault("decimal-scale-overflow", (cls, text, f"reference result exists but run() raised "
+                                   f"{type(exc).__name__} {code}: {str(exc)[:200]}",
+                                   {t.name: t.rows for t in tables if t.name in text}))
+                c["n"] -= 1
             else:
                 problem = f"reference result exists but run() raised {type(exc).__name__} {code}: {str(exc)[:140]}"
         elif rk == "error":
@@ -155,6 +163,14 @@ def run_family(pid: str, family: str, technique: str, function: str, bounds: Dic
                                               "by the reference: nothing was compared"
         else:
             ob.status, ob.detail = BOUNDED_OK, f"{c['n']} programs"
+    for kind_, (cls_, text, problem, data) in sorted(special.items()):
+        ob = chk.ob(f"{function}::{kind_}", function, f"[{kind_}] run() computes the VTL-defined result (first met in class "
+                    f"'{cls_}')", bounded=True)
+        ob.backend = "bounded-enumeration-real-engine"
+        ob.status, ob.detail = REFUTED, f"{text}  ==>  {problem}"
+        ob.witness = {"program": text, "problem": problem, "data": data}
+        ob.replayed, ob.replay_detail = True, "observed on the real engine: " + problem
+        ob.finding_key = f"{family}::{kind_}"
     chk.under_contract(function, "bounded")
     chk.extra.update(stats)
     chk.extra["bounds"] = bounds
